@@ -34,6 +34,8 @@ struct Seg {
     sent: Arc<Mutex<Vec<u8>>>,
     cuts: Vec<usize>,
     off: usize,
+    /// pause after each cut (the next segment is late: a retransmission, a slow link)
+    pause_ms: u64,
 }
 
 impl Write for Seg {
@@ -49,7 +51,7 @@ impl Write for Seg {
         self.off += w;
         if next.is_some() {
             let _ = self.s.flush();
-            std::thread::sleep(Duration::from_millis(3));
+            std::thread::sleep(Duration::from_millis(self.pause_ms));
         }
         Ok(w)
     }
@@ -113,9 +115,23 @@ pub fn run(ctx: &mut Ctx) {
         c.dedup();
         cut_sets.push(c);
     }
-    for cuts in cut_sets {
+    // (segments, pause between them): mostly back to back; some with the next segment several hundred milliseconds late -
+    // well within the handshake timeout, so the random is still the hello's
+    let mut cut_sets: Vec<(Vec<usize>, u64)> = cut_sets.into_iter().map(|c| (c, 3)).collect();
+    for (c, p) in [(vec![60usize], 400u64), (vec![5], 300), (vec![1], 250), (vec![100, 200], 300), (vec![43], 700)] {
+        cut_sets.push((c, p));
+    }
+    for (cuts, pause_ms) in cut_sets {
         for alpn in [&b"http/1.1"[..], &b"h2"[..]] {
-            let desc = format!("rustls client (ALPN {}) whose ClientHello is delivered in TCP segments cut at {:?}", String::from_utf8_lossy(alpn), if cuts.len() > 8 { &cuts[..8] } else { &cuts[..] });
+            if pause_ms > 3 && alpn == b"h2" {
+                continue;
+            }
+            let desc = format!(
+                "rustls client (ALPN {}) whose ClientHello is delivered in TCP segments cut at {:?}{}",
+                String::from_utf8_lossy(alpn),
+                if cuts.len() > 8 { &cuts[..8] } else { &cuts[..] },
+                if pause_ms > 3 { format!(", each following segment {} ms late", pause_ms) } else { String::new() }
+            );
             ctx.stat("live_tcp_handshakes");
             let before = verif::hooks::STATE.lock().unwrap().rule_inputs.len();
             let mut config = rustls::ClientConfig::builder().with_safe_defaults().with_custom_certificate_verifier(Arc::new(NoVerify)).with_no_client_auth();
@@ -128,7 +144,7 @@ pub fn run(ctx: &mut Ctx) {
             let _ = s.set_nodelay(true);
             let _ = s.set_read_timeout(Some(Duration::from_secs(3)));
             let sent = Arc::new(Mutex::new(vec![]));
-            let mut seg = Seg { s, sent: sent.clone(), cuts: cuts.clone(), off: 0 };
+            let mut seg = Seg { s, sent: sent.clone(), cuts: cuts.clone(), off: 0, pause_ms };
             let mut ok = true;
             while conn.is_handshaking() {
                 if let Err(e) = conn.complete_io(&mut seg) {
